@@ -30,6 +30,8 @@ use vcore::{idx, CaseReport, Failure};
 
 const P: &str = "C20";
 
+pub static CLASS_SAMPLE: ClassSample = ClassSample::new();
+
 pub const PREFIXES: &[&str] = &["app", "fibre_logging.log", "my.app", "svc-1", "x"];
 pub const SUFFIXES: &[&str] = &[".log", ".txt", "", ".log.out"];
 pub const CSUFFIXES: &[&str] = &[".gz", ".gzip", ".z"];
@@ -694,6 +696,9 @@ fn execute_in(c: &RollerCase, dir: &Path) -> Result<CaseReport, Failure> {
   rep.nontrivial = (size_roll && time_roll) || ((restarts_over_rolled > 0 || seeded_rolled > 0) && writes > 0 && !new_rolled.is_empty());
   if rep.nontrivial {
     rep.class("roller/nontrivial");
+    if roll_behind_newest_of_many > 0 && c.retain.is_some() && c.seeded.iter().any(|s| s.ahead) {
+      CLASS_SAMPLE.offer(c);
+    }
   }
   Ok(rep)
 }
